@@ -206,6 +206,69 @@ theorem c09_framing_choice (g : Cfg) (hdr : Header) (sc : Nat) (st : Bytes) (hs 
       rfcChunked g.proto11 hdr (if sc = 0 then 200 else sc) :=
   framing_choice g hdr sc st hs
 
+/-! ### `Sane` and the combined stage-1 statement -/
+
+def BOp.sizeOk : BOp → Bool
+  | .write d => decide (d.length ≤ maxChunk)
+  | _ => true
+
+instance (op : BOp) : Decidable op.ok := by cases op <;> unfold BOp.ok <;> infer_instance
+
+/-- **`Sane`** (stage 1), a decidable predicate on the handler's header map and body-phase program:
+satisfiable framing requests (`saneFraming`), no change of Content-Length once the body phase has begun,
+payloads within the range of the chunk-length formatter (2^31-1 bytes). -/
+def sane (g : Cfg) (hdr : Header) (ops : List BOp) : Bool :=
+  saneFraming g hdr && ops.all fun op => decide op.ok && op.sizeOk
+
+theorem runB_accepted_mem (g : Cfg) (ops : List BOp) (r : R) : ∀ d ∈ (runB g r ops).2, BOp.write d ∈ ops := by
+  induction ops generalizing r with
+  | nil => intro d hd; simp [runB] at hd
+  | cons op rest ih =>
+    intro d hd
+    cases op with
+    | write d' =>
+      simp only [runB] at hd
+      generalize write g r d' = p at hd
+      obtain ⟨r', w⟩ := p
+      dsimp only at hd
+      rcases List.mem_append.mp hd with h1 | h1
+      · cases w <;> simp at h1
+        subst h1; exact List.mem_cons_self ..
+      · exact List.mem_cons_of_mem _ (ih r' d h1)
+    | flush => simp only [runB] at hd; exact List.mem_cons_of_mem _ (ih _ d hd)
+    | setH k v => simp only [runB] at hd; exact List.mem_cons_of_mem _ (ih _ d hd)
+    | addH k v => simp only [runB] at hd; exact List.mem_cons_of_mem _ (ih _ d hd)
+    | delH k => simp only [runB] at hd; exact List.mem_cons_of_mem _ (ih _ d hd)
+
+/-- **C09 stage 1.** For every head encoder `g.head` (every head byte string `H`), every header map, status
+and body-phase program with `sane g hdr ops`, on a connection that accepts the writes:
+`wire = H ++ F`; the framing is chunked iff the RFC 7230 §3.3 rule says so for (request version, handler
+headers, status); identity: `F` is the concatenation of the accepted writes; chunked: the reference decoder
+turns `F` into that concatenation (and the trailer section).  Together with `c09_write_returns_len`
+(every successful write returns `|data|`) this is the framing half of C09. -/
+theorem c09_stage1 (g : Cfg) (hg : g.failAt = 0) (hdr : Header) (sc : Nat) (st : Bytes) (ops : List BOp)
+    (hs : sane g hdr ops = true) :
+    (body0 g hdr sc st).chunked = rfcChunked g.proto11 hdr (if sc = 0 then 200 else sc) ∧
+    ∃ (H F : Bytes), wireOf g hdr sc st ops = H ++ F ∧
+      ((body0 g hdr sc st).chunked = false → F = (accepted g hdr sc st ops).flatten) ∧
+      ((body0 g hdr sc st).chunked = true →
+        ∃ T, unchunk ((nonEmpty (accepted g hdr sc st ops)).length + 1) F =
+              some ((accepted g hdr sc st ops).flatten, T)) := by
+  unfold sane at hs
+  simp only [Bool.and_eq_true, List.all_eq_true, decide_eq_true_eq] at hs
+  obtain ⟨hf, hall⟩ := hs
+  have hok : ∀ op ∈ ops, op.ok := fun op hop => (hall op hop).1
+  have hsz : ∀ d ∈ accepted g hdr sc st ops, d.length ≤ maxChunk := by
+    intro d hd
+    have := (hall _ (runB_accepted_mem g ops _ d hd)).2
+    simpa [BOp.sizeOk] using this
+  refine ⟨c09_framing_choice g hdr sc st hf, ?_⟩
+  obtain ⟨rE, F, _, w, h1, h2⟩ := c09_stage1_unframe g hg hdr sc st ops hok hsz
+  refine ⟨g.head rE, F, w, h1, ?_⟩
+  intro hc
+  obtain ⟨T, hT, _⟩ := h2 hc
+  exact ⟨T, hT⟩
+
 /-! ## Stage 2: the head
 
 With the concrete head encoder `headBytes` (`g.head = headBytes g`), for programs whose body-phase header
@@ -360,18 +423,16 @@ theorem c09_identity_auto_length_partial (g : Cfg) (hg : g.failAt = 0) (hdr : He
 section nonvacuity
 set_option maxRecDepth 100000
 
-instance (op : BOp) : Decidable op.ok := by cases op <;> unfold BOp.ok <;> infer_instance
-
 /-- a chunked program with a Flush in the middle and a late trailer value: the hypotheses hold and the
 wire is what a client expects -/
 example :
     let hdr : Header := [(kDate, [str "D"]), (kTrailer, [str "X-Sum"])]
     let ops : List BOp := [.write (str "hello "), .flush, .write (str "world"), .setH (str "X-Sum") (str "11")]
-    saneFraming cfg11 hdr = true ∧ (∀ op ∈ ops, op.ok) ∧
+    sane cfg11 hdr ops = true ∧
     wireOf cfg11 hdr 0 [] ops =
       str ("HTTP/1.1 200 OK\r\nContent-Type: text/plain; charset=utf-8\r\nDate: D\r\nTrailer: X-Sum\r\n" ++
            "Transfer-Encoding: chunked\r\n\r\n6\r\nhello \r\n5\r\nworld\r\n0\r\nX-Sum: 11\r\n\r\n") := by
-  refine ⟨by decide, by decide, by decide⟩
+  refine ⟨by decide, by decide⟩
 
 /-- the reference decoder on that wire's framing part -/
 example : unchunk 3 (str "6\r\nhello \r\n5\r\nworld\r\n0\r\nX-Sum: 11\r\n\r\n") =
